@@ -56,12 +56,26 @@ func main() {
 	repo := flag.String("repo", "/repo", "repository root")
 	out := flag.String("out", "", "output directory for rewritten files")
 	overlayDir := flag.String("overlay-src", "", "directory with quic_stub.go.txt and erpc_export.go.txt")
+	keyRoot := flag.String("keyroot", "", "directory the build actually compiles (overlay keys); default: -repo. If it differs, every source file of -repo is overlaid onto it")
 	yields := flag.String("yield", "", "comma separated file:line list (relative to repo) where an extra yield is inserted")
 	flag.Parse()
 	if *out == "" {
 		fatalf("-out required")
 	}
 	os.MkdirAll(*out, 0o755)
+	if *keyRoot == "" {
+		*keyRoot = *repo
+	}
+	rekey := func(path string) string {
+		if *keyRoot == *repo {
+			return path
+		}
+		rel, err := filepath.Rel(*repo, path)
+		if err != nil {
+			fatalf("%v", err)
+		}
+		return filepath.Join(*keyRoot, rel)
+	}
 
 	// 1. export data of all dependencies (for type checking)
 	args := []string{"list", "-export", "-deps", "-json=Dir,ImportPath,Export,GoFiles,Standard"}
@@ -149,7 +163,7 @@ func main() {
 				if err := os.WriteFile(dst, buf.Bytes(), 0o644); err != nil {
 					fatalf("write: %v", err)
 				}
-				overlay[filepath.Join(lp.Dir, names[i])] = dst
+				overlay[rekey(filepath.Join(lp.Dir, names[i]))] = dst
 				nfiles++
 				nrewrites += r.count
 			}
@@ -173,10 +187,10 @@ func main() {
 		for _, e := range ents {
 			if strings.HasSuffix(e.Name(), ".go") && !strings.HasSuffix(e.Name(), "_test.go") {
 				if first {
-					overlay[filepath.Join(*repo, "quic", e.Name())] = dst
+					overlay[rekey(filepath.Join(*repo, "quic", e.Name()))] = dst
 					first = false
 				} else {
-					overlay[filepath.Join(*repo, "quic", e.Name())] = "" // deleted
+					overlay[rekey(filepath.Join(*repo, "quic", e.Name()))] = "" // deleted
 				}
 			}
 		}
@@ -196,8 +210,46 @@ func main() {
 			}
 			dst := filepath.Join(*out, "zz_verif_export__"+rel+".go")
 			os.WriteFile(dst, exp, 0o644)
-			overlay[filepath.Join(dir, "zz_verif_export.go")] = dst
+			overlay[rekey(filepath.Join(dir, "zz_verif_export.go"))] = dst
 		}
+	}
+	if *keyRoot != *repo {
+		// compile the snapshot, not the key root: overlay every remaining source file verbatim
+		filepath.Walk(*repo, func(path string, info os.FileInfo, err error) error {
+			if err != nil {
+				return nil
+			}
+			if info.IsDir() {
+				if n := info.Name(); n == ".git" || n == "examples" {
+					return filepath.SkipDir
+				}
+				return nil
+			}
+			if strings.HasSuffix(path, ".go") && !strings.HasSuffix(path, "_test.go") {
+				if _, ok := overlay[rekey(path)]; !ok {
+					overlay[rekey(path)] = path
+				}
+			}
+			return nil
+		})
+		// files that exist only in the key root must disappear
+		filepath.Walk(*keyRoot, func(path string, info os.FileInfo, err error) error {
+			if err != nil {
+				return nil
+			}
+			if info.IsDir() {
+				if n := info.Name(); n == ".git" || n == "examples" {
+					return filepath.SkipDir
+				}
+				return nil
+			}
+			if strings.HasSuffix(path, ".go") && !strings.HasSuffix(path, "_test.go") {
+				if _, ok := overlay[path]; !ok {
+					overlay[path] = ""
+				}
+			}
+			return nil
+		})
 	}
 	ov, _ := json.MarshalIndent(map[string]interface{}{"Replace": overlay}, "", " ")
 	if err := os.WriteFile(filepath.Join(*out, "overlay.json"), ov, 0o644); err != nil {
